@@ -345,6 +345,65 @@ func runC03(c *Ctx) {
 			}
 		}
 	}
+	// artifact entry point x every signing layout x Destination of the inner Response: on the back channel a
+	// signature on the inner Response does not make Destination mandatory, but one that is present must match
+	for _, signAR := range []bool{true, false} {
+		for _, signResp := range []bool{true, false} {
+			for _, signAssert := range []bool{true, false} {
+				for di, dest := range []*string{sp(cfg.AcsURL), nil, sp("https://evil.example.net/acs"), sp("")} {
+					n++
+					rs, as := validSpecs(cfg, now, fmt.Sprintf("artlay%d", n))
+					rs.Dest = dest
+					a := buildAssertion(as)
+					if signAssert {
+						SignInto(a, 0)
+					}
+					r := buildResponse(rs, a)
+					if signResp {
+						SignInto(r, 0)
+					}
+					ars := RespSpec{Tag: "ArtifactResponse", ID: fmt.Sprintf("ar-lay-%d", n), IRT: sp("resolve-1"), Issue: rs.Issue, Issuer: sp(cfg.IdpEntity), Status: sp(statusSuccess)}
+					ar := buildResponse(ars, r)
+					if signAR {
+						SignInto(ar, 0)
+					}
+					c.Count("class/artifact-layout-destination")
+					addRun(c, g, &Run{Cfg: cfg, IDs: []string{"req-1"}, Now: now, Cur: cfg.AcsURL, Entry: 1, Rid: "resolve-1", Doc: soapWrap(ar)},
+						map[string]string{"class": "artifact-layout-destination", "ar_signed": fmt.Sprint(signAR), "resp_signed": fmt.Sprint(signResp), "assert_signed": fmt.Sprint(signAssert), "dest": fmt.Sprint(di)}, false)
+				}
+			}
+		}
+	}
+	// confirmations without SubjectConfirmationData (no Recipient to compare): alone, before and after a complete one
+	for _, shape := range [][]bool{{true}, {true, false}, {false, true}, {true, true}, {false, true, false}} {
+		for _, idpInit := range []bool{false, true} {
+			for _, signResp := range []bool{true, false} {
+				n++
+				cfg2 := cfg
+				cfg2.AllowIdpInit = idpInit
+				rs, as := validSpecs(cfg2, now, fmt.Sprintf("nodata%d", n))
+				conf := as.Confs[0]
+				as.Confs = nil
+				for _, nd := range shape {
+					c2 := conf
+					c2.NoData = nd
+					as.Confs = append(as.Confs, c2)
+				}
+				a := buildAssertion(as)
+				if !signResp {
+					SignInto(a, 0)
+					rs.Dest = nil
+				}
+				r := buildResponse(rs, a)
+				if signResp {
+					SignInto(r, 0)
+				}
+				c.Count("class/confirmation-without-data")
+				addRun(c, g, &Run{Cfg: cfg2, IDs: []string{"req-1"}, Now: now, Cur: cfg2.AcsURL, Doc: r},
+					map[string]string{"class": "confirmation-without-data", "shape": fmt.Sprint(shape), "allow_idp_initiated": fmt.Sprint(idpInit), "resp_signed": fmt.Sprint(signResp)}, false)
+			}
+		}
+	}
 	spHistories(c, g)
 	randomCombinations(c, g, 400, false)
 }
